@@ -199,6 +199,7 @@ def oracles(trial, calls):
     wf = trial['profile'] in ('wf', 'bal')
     last_id = None
     eph_last = {}
+    seen_sync = set()
     for outs in calls:
         for o in outs:
             if o['k'] == 'req':     # flow control: a request must say truthfully whether its source is ephemeral (the publisher stops waiting for ephemeral clients)
@@ -217,6 +218,10 @@ def oracles(trial, calls):
                 if not subscribed(spec, pt): v['C02'].append(('unsubscribed-topic' + ('-slash' if '/' in pt else ''), f'source {i} topic {pt!r} delivered, subscription {spec}'))
                 elif mapped(spec, pt) != t: v['C02'].append(('wrong-topic-name', f'{pt!r} delivered as {t!r}, subscription {spec}'))
                 if srcs[i]['eph'] == 0 and mid != rid: v['C01'].append(('mixed-ids', f'set returned as id {rid} holds source {i} frame of id {mid}'))
+                if srcs[i]['eph'] == 0:   # at most once / unaltered: every wire message of a synchronised source is handed over at most once, under its own id
+                    if b in seen_sync: v['C02'].append(('redelivered', f'source {i}: the message published as id {mid} topic {pt!r} is delivered again, in the set returned as id {rid}'))
+                    elif mid != rid: v['C02'].append(('frame-under-other-id', f'source {i}: frame published under id {mid} delivered in the set of id {rid}'))
+                    seen_sync.add(b)
             if last_id is not None and rid <= last_id: v['C02'].append(('order', f'id {rid} returned after {last_id}'))
             last_id = rid
             if trial['balance']:
